@@ -79,11 +79,19 @@ def gen_case(seed, i):
             t = rng.choice(files)
             w.add_symlink(lp, os.path.relpath(t, d))
         elif kind == "file-abs" and files:
-            w.add_symlink(lp, "@ROOT@/" + rng.choice(files))
+            t = rng.choice(files)
+            if rng.random() < 0.4 and t.count("/") >= 2:
+                # an absolute target that is not canonical: it climbs out of a directory and back in
+                d_, n_ = t.rsplit("/", 1)
+                t = d_ + "/../" + d_.rsplit("/", 1)[1] + "/" + n_
+            w.add_symlink(lp, "@ROOT@/" + t)
         elif kind == "dir-rel":
             w.add_symlink(lp, os.path.relpath(rng.choice(dirs), d))
         elif kind == "dir-abs":
-            w.add_symlink(lp, "@ROOT@/" + rng.choice(dirs))
+            t = rng.choice(dirs)
+            if rng.random() < 0.4 and "/" in t:
+                t = t + "/../" + t.rsplit("/", 1)[1]
+            w.add_symlink(lp, "@ROOT@/" + t)
         elif kind == "dangling":
             w.add_symlink(lp, "no/such/thing")
         elif kind == "cycle":
@@ -184,7 +192,9 @@ def gen_case(seed, i):
     if opts.get("i") and not opts.get("regex") and rng.random() < 0.6:
         # case-insensitive matching of cwd-relative patterns whose case differs from the names
         k = rng.choice(["path", "exclude"])
-        opts[k] = [rng.choice(["*/*.TXT", "*.TXT", "SUB/*", "*/readme", "*/F.TXT", "*/*/*.Txt", "A/**"])]
+        opts[k] = [rng.choice(["*/*.TXT", "*.TXT", "SUB/*", "*/readme", "*/F.TXT", "*/*/*.Txt", "A/**"] +
+                              # patterns that match a DIRECTORY itself (pruning must ignore case too)
+                              (["SUB", "**/SUB", "**/Sub", "**/A", "**/B", "**/up", "**/D.E"] if k == "exclude" else []))]
     if rng.random() < 0.15:
         subs = [d for d in dirs if "/" in d]
         if subs:
